@@ -536,6 +536,7 @@ struct TExp
     bool judged = true;                  // false: the property does not fix the outcome (only safety applies)
     bool none = false;                   // no packet expected
     uint8_t kind = 0;                    // 'C' can, 'L' lin, 'M' cm status, 'B' bus status
+    uint16_t dataType = 0;
     uint8_t device = 0;
     uint64_t ts = 0;
     uint32_t ifid = 0;
@@ -567,6 +568,7 @@ static TExp expectTecmp(const Bytes& f)
     uint16_t dt = (uint16_t) ref::rd(&f[6], 2);
     e.ifid = (uint32_t) ref::rd(&f[12], 4);
     e.ts = ref::rd(&f[16], 8);
+    e.dataType = dt;
     uint16_t plen = (uint16_t) ref::rd(&f[24], 2);
     size_t avail = f.size() - ref::TECMP_HDR;
     if (plen == 0 || plen > avail)
@@ -705,6 +707,12 @@ static void judgeC15(W& w, const Bytes& f)
                 bad("payload-type", "expected a CAN or CAN-FD payload;");
                 continue;
             }
+            // a classic CAN message with up to 8 bytes is a CAN payload, a CAN-FD message with more than 8 bytes a CAN-FD payload
+            // (the other two combinations are left to the library, which decides by the length)
+            if (e.dataType == ref::TD_CAN && e.data.size() <= 8 && o.fullType != PayloadType::can)
+                bad("payload-type", "a TECMP CAN message with <= 8 data bytes was converted to a CAN-FD payload;");
+            if (e.dataType == ref::TD_CANFD && e.data.size() > 8 && o.fullType != PayloadType::canFd)
+                bad("payload-type", "a TECMP CAN-FD message with > 8 data bytes was converted to a classic CAN payload;");
             auto& c = static_cast<const CanPayloadBase&>(p.getPayload());
             if (c.getId() != e.arbId)
                 bad("arbitration-id", fmt("id 0x%x expected 0x%x;", c.getId(), e.arbId));
